@@ -123,12 +123,34 @@ def gen_vendor(repo, info):
         groups = dict(re.compile(mod.RX).groupindex)
         tl = []
         how = "ast"
+        # what the AST extraction found is cross-checked by running the adapter on sentinel values: a frame list that is
+        # extended after its literal (a loop, append calls) or a placeholder whose variable the extraction cannot trace
+        # back to a group means the source no longer has the recognised shape
+        ob_probe = None
+        try:
+            import vendor_observe
+            ob_probe = vendor_observe.observe_adapter(mod)
+        except Exception:
+            ob_probe = None
+
+        def ast_incomplete():
+            if ob_probe is not None and len(ob_probe["templates"]) != len(a["templates"]):
+                return True
+            for tmpl, kw, star in a["templates"]:
+                for kind, val in pieces_of(tmpl):
+                    if lean_piece(kind, val, a, groups) is None:
+                        if val in kw:
+                            if kw[val] != "timestamp" and kw[val] not in a["var_group"]:
+                                return True
+                        elif not (star and val in groups):
+                            return True
+            return False
         if not a["templates"] or not (a["messages_assigned"] and a["calls_on_eot"] and a["calls_on_enq_if_idle"]) \
-                or a["envelope"] is None:
+                or a["envelope"] is None or (ob_probe is not None and ast_incomplete()):
             # the source does not have the shape the AST extraction recognises: recover the templates and the glue by
             # running the adapter on sentinel values (validated on generated lines by the correspondence stream)
             import vendor_observe
-            ob = vendor_observe.observe_adapter(mod)
+            ob = ob_probe if ob_probe is not None else vendor_observe.observe_adapter(mod)
             how = "observed"
             for pieces in ob["templates"]:
                 ps = []
